@@ -5,7 +5,7 @@ From PyFS Require Import Base.PyStr Base.Outcome Path.PathModel Path.PathSpec Pa
      FS.Tree FS.Monad FS.Mode FS.Base FS.Mem FS.Ops FS.Ref FS.Agree FS.Wf
      FS.TreeLemmas FS.RefineLemmas FS.RefineProofs FS.Props FS.PropsProofs
      FS.RefineWalkLemmasEq FS.RefineWalkLemmasMk FS.RefineWalkLemmasBfs
-     FS.RefineWalkLemmasMerge FS.RefineWalkLemmasCopy.
+     FS.RefineWalkLemmasMerge FS.RefineWalkLemmasCopy FS.RefineWalkNn.
 Import ListNotations.
 
 (* ------------------------------------------------------------------ *)
@@ -324,6 +324,16 @@ Proof.
   split; [reflexivity|]. eexists. split; [reflexivity|exact H].
 Qed.
 
+Lemma wfin_dt_err s a b create pt move e :
+  wf s -> nn s -> (move && path_eqb a b) = false ->
+  existsb (ecls_eqb e) (dirtransfer_errors s a b create move) = true ->
+  agree (s, @Err value e) (ref_dirtransfer s a b create pt move) = true
+  /\ wf (fst (s, @Err value e)) /\ nn (fst (s, @Err value e)).
+Proof.
+  intros W N Hm H. destruct (ref_dt_fail s a b create pt move e Hm H) as [T R].
+  now apply wfin_err.
+Qed.
+
 Lemma ref_dt_ok s a b create pt move S0 D :
   (move && path_eqb a b) = false ->
   dirtransfer_errors s a b create move = [] -> list_prefix b a = false ->
@@ -448,22 +458,22 @@ Proof.
   assert (Hm : (false && path_eqb a b) = false) by reflexivity.
   unfold vmap, mbind. rewrite (copydir_unfold _ _ create pt s a b R1 R2).
   destruct (list_prefix a b) eqn:Hab.
-  { apply wfin_err; auto; apply (ref_dt_fail s a b create pt false _ Hm);
+  { apply wfin_dt_err; auto;
       rewrite dte_eq, Hab; reflexivity. }
   pose proof (diverge_of_prefix a b Hab Hba) as Dab.
   (* the destination must exist unless create *)
   destruct (negb (if create then true else match lookup s b with Some _ => true | None => false end)) eqn:Hex.
   { destruct create; [discriminate|]. destruct (lookup s b) eqn:Lb; [discriminate|].
-    apply wfin_err; auto; apply (ref_dt_fail s a b false pt false _ Hm);
+    apply wfin_dt_err; auto;
       rewrite dte_eq, Hab.
-    all: destruct (status_lookup_none _ _ Lb) as [E|E]; rewrite E;
+    destruct (status_lookup_none _ _ Lb) as [E|E]; rewrite E;
       destruct (status_of s a); destruct (prefix_is_file s [] b); reflexivity. }
   destruct (lookup s a) as [S0|] eqn:La.
-  2:{ apply wfin_err; auto; apply (ref_dt_fail s a b create pt false _ Hm);
+  2:{ apply wfin_dt_err; auto;
         rewrite dte_eq, Hab.
-      all: destruct (status_lookup_none _ _ La) as [E|E]; rewrite E; reflexivity. }
+      destruct (status_lookup_none _ _ La) as [E|E]; rewrite E; reflexivity. }
   destruct S0 as [d0 m0|es ms]; cbn [is_dir].
-  { apply wfin_err; auto; apply (ref_dt_fail s a b create pt false _ Hm);
+  { apply wfin_dt_err; auto;
       rewrite dte_eq, Hab, (status_file _ _ _ _ La); reflexivity. }
   set (S0 := Dir es ms) in *.
   assert (HP : P a S0 s) by (split; [exact W|split; [exact N|exact La]]).
@@ -475,7 +485,7 @@ Proof.
   - (* the destination exists *)
     destruct D as [db mb|eb mb].
     + rewrite (pif_file_true s b db mb Wd Lb).
-      apply wfin_err; auto; apply (ref_dt_fail s a b create pt false _ Hm);
+      apply wfin_dt_err; auto;
         rewrite dte_eq, Hab, (status_dir _ _ _ _ La), (status_file _ _ _ _ Lb); reflexivity.
     + set (D := Dir eb mb) in *.
       rewrite (pif_dir_false s b D Wd Lb eq_refl), (status_dir _ _ _ _ Lb).
@@ -491,9 +501,9 @@ Proof.
   - (* the destination is missing: create = true *)
     destruct create; [|discriminate].
     destruct (prefix_is_file s [] b) eqn:Pf.
-    { apply wfin_err; auto; apply (ref_dt_fail s a b true pt false _ Hm);
+    { apply wfin_dt_err; auto;
         rewrite dte_eq, Hab, (status_dir _ _ _ _ La), Pf.
-      all: destruct (status_lookup_none _ _ Lb) as [E|E]; rewrite E; reflexivity. }
+      destruct (status_lookup_none _ _ Lb) as [E|E]; rewrite E; reflexivity. }
     assert (Hst : match status_of s b with IsDir => False | _ => True end) by (apply status_missing; exact Lb).
     assert (Est : match status_of s b with
                   | IsDir => (s, @Ok unit tt)
@@ -534,3 +544,219 @@ Theorem mem_copydir_wf : forall src dst create pt s a b,
   wf s -> nn s -> rpath src = inl a -> rpath dst = inl b -> list_prefix b a = false ->
   wf (fst (mem_run (OCopydir src dst create pt) s)) /\ nn (fst (mem_run (OCopydir src dst create pt) s)).
 Proof. intros. now apply (copydir_step src dst create pt s a b). Qed.
+
+(* ------------------------------------------------------------------ *)
+(* W3: movedir onto an existing destination                            *)
+(* ------------------------------------------------------------------ *)
+Lemma movedir_exist_unfold src dst create pt s a b D :
+  rpath src = inl a -> rpath dst = inl b -> diverge a b -> lookup s b = Some D ->
+  mem_movedir src dst create pt s =
+  match lookup s a with
+  | None => (s, Err ResourceNotFound)
+  | Some (File _ _) => (s, Err DirectoryExpected)
+  | Some (Dir _ _) => mem_base_movedir src dst create pt s
+  end.
+Proof.
+  intros R1 R2 Dab Lb.
+  pose proof (rpath_good _ _ R1) as G1. pose proof (rpath_good _ _ R2) as G2.
+  destruct (list_snoc_case b) as [->|[dd [dc ->]]].
+  { exfalso. destruct Dab as (u & c1 & c2 & p' & q' & _ & _ & E). destruct u; discriminate. }
+  destruct (list_snoc_case a) as [->|[sd [sc ->]]].
+  { exfalso. destruct Dab as (u & c1 & c2 & p' & q' & _ & E & _). destruct u; discriminate. }
+  destruct (good_snoc _ _ G2) as [Gdd Gdc]. destruct (good_snoc _ _ G1) as [Gsd Gsc].
+  unfold mem_movedir. mstep. rewrite (validate_inl _ _ s R1). mstep.
+  rewrite (validate_inl _ _ s R2). mstep.
+  rewrite (psplit_snoc true dd dc Gdd Gdc).
+  rewrite (to_path_eqb _ _ G1 G2).
+  rewrite (isbase_nf true _ true _ G1 G2), <- list_prefix_cprefix.
+  rewrite (psplit_snoc true sd sc Gsd Gsc). mstep.
+  rewrite (path_eqb_neq _ _ (diverge_neq _ _ Dab)), (diverge_prefix _ _ Dab). mstep.
+  rewrite get_dir_entry_nf by assumption. mstep.
+  pview s sd sc; rewrite ?Hl, ?Ha, Hlc; mstep; try reflexivity.
+  destruct n as [sdata smt|e3 m3]; mstep; [reflexivity|].
+  rewrite get_dir_entry_nf by assumption. mstep. rewrite Lb. reflexivity.
+Qed.
+
+Lemma base_movedir_unfold src dst create pt s a b S0 D :
+  rpath src = inl a -> rpath dst = inl b -> diverge a b ->
+  lookup s a = Some S0 -> is_dir S0 = true -> lookup s b = Some D ->
+  mem_base_movedir src dst create pt s =
+  if is_dir D then
+    match copy_dir mem_low mem_copy src dst pt s with
+    | (t2, Ok _) => mem_removetree src t2
+    | (t2, Err e) => (t2, Err e)
+    | (t2, Crash c) => (t2, Crash c)
+    end
+  else (s, Err DirectoryExpected).
+Proof.
+  intros R1 R2 Dab La Sd Lb.
+  pose proof (rpath_vp _ _ R1) as Va. pose proof (rpath_vp _ _ R2) as Vb.
+  pose proof Va as [Ga _]. pose proof Vb as [Gb _].
+  unfold mem_base_movedir, b_movedir. cbn [l_validatepath l_getinfo mem_low]. mstep.
+  rewrite (validate_inl _ _ s R1). mstep. rewrite (validate_inl _ _ s R2). mstep.
+  rewrite (to_path_eqb _ _ Ga Gb), (path_eqb_neq _ _ (diverge_neq _ _ Dab)).
+  rewrite (isbase_nf true a true b Ga Gb), <- list_prefix_cprefix, (diverge_prefix _ _ Dab).
+  mstep.
+  assert (He : b_exists mem_low dst s = (s, Ok true)).
+  { rewrite (mem_exists_spec _ _ s R2), Lb. reflexivity. }
+  destruct create; [|rewrite He]; cbn [negb]; mstep.
+  all: rewrite (mem_getinfo_spec _ _ s (rpath_nf _ Va)), La; mstep; cbn [to_info i_isdir];
+    rewrite Sd; cbn [negb]; mstep;
+    unfold move_dir; cbn [l_makedir l_removetree mem_low]; mstep;
+    (destruct (list_snoc_case b) as [Eb|[dd [dc Eb]]];
+     [exfalso; subst b; destruct Dab as (u & c1 & c2 & p' & q' & _ & _ & E); destruct u; discriminate|]);
+    subst b;
+    rewrite (mem_makedir_snoc _ _ _ true s R2);
+    pose proof Lb as Lb'; rewrite lookup_snoc in Lb';
+    (destruct (lookup s dd) as [[|eb mb]|]; try discriminate); rewrite Lb';
+    rewrite (mem_opendir_spec _ _ s R2), Lb;
+    destruct (is_dir D); reflexivity.
+Qed.
+
+Lemma ext_eq_del x y p c : wf_node x -> wf_node y -> ext_eq x y ->
+  ext_eq (del x (p ++ [c])) (del y (p ++ [c])).
+Proof. intros Wx Wy E q. rewrite !shl_del by assumption. now rewrite E. Qed.
+
+Lemma list_prefix_refl a : list_prefix a a = true.
+Proof. induction a as [|x a IH]; simpl; [reflexivity|]. now rewrite str_eqb_refl. Qed.
+
+Lemma movedir_prefix_illegal src dst create pt s a b :
+  rpath src = inl a -> rpath dst = inl b -> list_prefix a b = true -> path_eqb a b = false ->
+  mem_movedir src dst create pt s = (s, Err IllegalDestination).
+Proof.
+  intros R1 R2 Hab Eab.
+  pose proof (rpath_good _ _ R1) as G1. pose proof (rpath_good _ _ R2) as G2.
+  unfold mem_movedir. mstep. rewrite (validate_inl _ _ s R1). mstep.
+  rewrite (validate_inl _ _ s R2). mstep.
+  destruct (psplit (to_path true b)) as [dd dn]. destruct (psplit (to_path true a)) as [sd sn].
+  rewrite (to_path_eqb _ _ G1 G2), Eab.
+  rewrite (isbase_nf true _ true _ G1 G2), <- list_prefix_cprefix, Hab. reflexivity.
+Qed.
+
+Lemma movedir_exist_step src dst create pt s a b D :
+  wf s -> nn s -> rpath src = inl a -> rpath dst = inl b -> list_prefix b a = false ->
+  lookup s b = Some D ->
+  wstep_ok (OMovedir src dst create pt) s.
+Proof.
+  intros W N R1 R2 Hba Lb. unfold wstep_ok. cbn [mem_run ref_run]. unfold with2. rewrite R1, R2.
+  pose proof (rpath_vp _ _ R1) as Va. pose proof (rpath_vp _ _ R2) as Vb.
+  assert (Wd : is_dir s = true) by (destruct W; assumption).
+  unfold vmap, mbind.
+  destruct (list_prefix a b) eqn:Hab.
+  { (* identical or inside: not through the walker *)
+    destruct (path_eqb a b) eqn:Eab.
+    - apply path_eqb_eq in Eab. subst b. rewrite list_prefix_refl in Hba. discriminate.
+    - pose proof (movedir_prefix_illegal src dst create pt s a b R1 R2 Hab Eab) as E.
+      rewrite E. apply wfin_dt_err; auto.
+      rewrite dte_eq, Hab. reflexivity. }
+  pose proof (diverge_of_prefix a b Hab Hba) as Dab.
+  assert (Hm : (true && path_eqb a b) = false)
+    by (cbn [andb]; apply path_eqb_neq; now apply diverge_neq).
+  rewrite (movedir_exist_unfold _ _ create pt s a b D R1 R2 Dab Lb).
+  destruct (lookup s a) as [S0|] eqn:La.
+  2:{ apply wfin_dt_err; auto. rewrite dte_eq, Hab.
+      destruct (status_lookup_none _ _ La) as [E|E]; rewrite E; reflexivity. }
+  destruct S0 as [d0 m0|es ms].
+  { apply wfin_dt_err; auto. rewrite dte_eq, Hab, (status_file _ _ _ _ La). reflexivity. }
+  set (S0 := Dir es ms) in *.
+  assert (HP : P a S0 s) by (split; [exact W|split; [exact N|exact La]]).
+  assert (Sd : is_dir S0 = true) by reflexivity.
+  rewrite (base_movedir_unfold _ _ create pt s a b S0 D R1 R2 Dab La Sd Lb).
+  destruct D as [db mb|eb mb]; cbn [is_dir].
+  { apply wfin_dt_err; auto. rewrite dte_eq, Hab, (status_dir _ _ _ _ La), (status_file _ _ _ _ Lb).
+    reflexivity. }
+  set (D := Dir eb mb) in *.
+  rewrite (copy_dir_run a b pt S0 Va Vb Dab _ _ s R1 R2 HP).
+  destruct (makedirs_spec _ true s b W (rpath_nf _ Vb)) as [Emk _].
+  rewrite Emk. unfold makedirs_rhs.
+  rewrite (pif_dir_false s b D Wd Lb eq_refl), (status_dir _ _ _ _ Lb).
+  assert (He : dirtransfer_errors s a b create true = []).
+  { rewrite dte_eq, Hab, (status_dir _ _ _ _ La), (status_dir _ _ _ _ Lb). reflexivity. }
+  rewrite (ref_dt_ok s a b create pt true S0 D Hm He Hba La Lb).
+  destruct (run2_vs_merge a b pt S0 D s Va Vb Dab Sd HP Lb eq_refl)
+    as [HP2 [(t2 & M & E2 & Em & WM & Hext)|(t2 & e & E2 & Em & Hcl)]];
+    rewrite E2 in *; rewrite Em; cbn [fst] in HP2; pose proof HP2 as (W2 & N2 & La2).
+  - (* copied: remove the source *)
+    destruct (list_snoc_case a) as [Ea|[sd [sc Ea]]].
+    { exfalso. subst a. destruct Dab as (u & c1 & c2 & p' & q' & _ & E & _). destruct u; discriminate. }
+    subst a.
+    rewrite (mem_removetree_snoc _ _ _ t2 R1).
+    pose proof La2 as La2'. rewrite lookup_snoc in La2'.
+    destruct (lookup t2 sd) as [[|ed md]|]; try discriminate. rewrite La2'. unfold S0.
+    apply wfin_ok.
+    + now apply wf_del_any.
+    + now apply nn_del.
+    + apply wf_del. apply wf_put; auto; destruct W, Vb; auto.
+    + apply ext_eq_del; auto.
+      * destruct W2; assumption.
+      * apply wf_put; auto; destruct W, Vb; auto.
+  - split; [|split; assumption]. unfold agree. cbn [fst snd rs_res rs_tree res_agree].
+    now rewrite (confl_class e Hcl).
+Qed.
+
+(* W3 *)
+Theorem mem_movedir_exist_refines_ref : forall src dst create pt s a b D,
+  wf s -> nn s -> rpath src = inl a -> rpath dst = inl b -> list_prefix b a = false ->
+  lookup s b = Some D ->
+  agree (mem_run (OMovedir src dst create pt) s) (ref_run (OMovedir src dst create pt) s) = true.
+Proof. intros. now apply (movedir_exist_step src dst create pt s a b D). Qed.
+
+Theorem mem_movedir_exist_wf : forall src dst create pt s a b D,
+  wf s -> nn s -> rpath src = inl a -> rpath dst = inl b -> list_prefix b a = false ->
+  lookup s b = Some D ->
+  wf (fst (mem_run (OMovedir src dst create pt) s)) /\ nn (fst (mem_run (OMovedir src dst create pt) s)).
+Proof. intros. now apply (movedir_exist_step src dst create pt s a b D). Qed.
+
+(* the fast path (destination missing) keeps the NUL-free invariant too *)
+Lemma movedir_fast_nn src dst create pt s a b :
+  wf s -> nn s -> rpath src = inl a -> rpath dst = inl b -> list_prefix b a = false ->
+  lookup s b = None -> nn (fst (mem_run (OMovedir src dst create pt) s)).
+Proof.
+  intros W N R1 R2 Hba Lb.
+  pose proof (mem_movedir_refines_ref src dst create pt s a b W R1 R2 Lb) as A.
+  pose proof (rpath_vp _ _ R1) as [_ Na]. pose proof (rpath_vp _ _ R2) as [_ Nb].
+  unfold agree in A. apply andb_true_iff in A as [_ A].
+  cbn [ref_run] in A. unfold with2 in A. rewrite R1, R2 in A. unfold ref_dirtransfer in A.
+  destruct (true && path_eqb a b); [exact (nn_tree_eqb _ _ A N)|].
+  destruct (dirtransfer_errors s a b create true); [|exact (nn_tree_eqb _ _ A N)].
+  rewrite Hba, Lb in A.
+  destruct (lookup s a) as [src0|] eqn:La; [|exact (nn_tree_eqb _ _ A N)].
+  cbn [rs_tree] in A. apply (nn_tree_eqb _ _ A).
+  apply nn_del. apply nn_put; auto. now destruct (nn_lookup a s src0 N La).
+Qed.
+
+(* movedir, every non-degenerate case *)
+Theorem mem_movedir_refines_ref_nondegenerate : forall src dst create pt s a b,
+  wf s -> nn s -> rpath src = inl a -> rpath dst = inl b -> list_prefix b a = false ->
+  agree (mem_run (OMovedir src dst create pt) s) (ref_run (OMovedir src dst create pt) s) = true
+  /\ wf (fst (mem_run (OMovedir src dst create pt) s))
+  /\ nn (fst (mem_run (OMovedir src dst create pt) s)).
+Proof.
+  intros src dst create pt s a b W N R1 R2 Hba.
+  destruct (lookup s b) as [D|] eqn:Lb.
+  - exact (movedir_exist_step src dst create pt s a b D W N R1 R2 Hba Lb).
+  - split; [exact (mem_movedir_refines_ref src dst create pt s a b W R1 R2 Lb)|].
+    split; [exact (mem_movedir_wf src dst create pt s a b W R1 R2 Lb)|].
+    exact (movedir_fast_nn src dst create pt s a b W N R1 R2 Hba Lb).
+Qed.
+
+(* W1 keeps the NUL-free invariant *)
+Lemma nn_mkdirs rest : forall pre t, nn t -> nonul (pre ++ rest) -> nn (mkdirs t pre rest).
+Proof.
+  induction rest as [|c r IH]; intros pre t N Np; [exact N|].
+  assert (E : pre ++ c :: r = (pre ++ [c]) ++ r) by (rewrite <- app_assoc; reflexivity).
+  cbn [mkdirs]. rewrite E in Np.
+  destruct (lookup t (pre ++ [c])); apply IH; auto.
+  apply nn_put; auto; [|exact nn_empty]. apply nonul_app in Np. tauto.
+Qed.
+
+Theorem mem_makedirs_nn : forall p recreate s cs,
+  wf s -> nn s -> rpath p = inl cs -> nn (fst (mem_run (OMakedirs p recreate) s)).
+Proof.
+  intros p r s cs W N R. cbn [mem_run]. unfold vmap, mbind.
+  destruct (makedirs_spec p r s cs W R) as [E _]. rewrite E. unfold makedirs_rhs.
+  pose proof (rpath_vp _ _ R) as [_ Nc].
+  destruct (prefix_is_file s [] cs); [exact N|].
+  destruct (status_of s cs); try (cbn [fst]; now apply nn_mkdirs).
+  destruct r; exact N.
+Qed.
